@@ -108,7 +108,9 @@ def Rng.next (r : Rng) : Rng × UInt64 :=
   (⟨s⟩, z ^^^ (z >>> 31))
 
 inductive Fault where
-  | none | err | cancel | mem | swallow
+  | none | err | cancel | mem
+  | swallow    -- the k-th driver call returns a context.Canceled-class error while the traversal context is live
+  | cswallow   -- the k-th driver call cancels the caller's context, then returns such an error
 deriving DecidableEq, Repr
 
 def parseFault : String → Option Fault
@@ -117,6 +119,7 @@ def parseFault : String → Option Fault
   | "cancel" => some .cancel
   | "mem" => some .mem
   | "swallow" => some .swallow
+  | "cswallow" => some .cswallow
   | _ => Option.none
 
 def wacts : List WAct :=
@@ -124,10 +127,10 @@ def wacts : List WAct :=
    .compl, .complCancel, .fail, .failSilent]
 
 /-- fault policy: which driver-call outcomes the environment offers at this point -/
-def allowed (fault : Fault) (k : Nat) (calls : Nat) : WAct → Bool
-  | .driverOk => !((fault == .err || fault == .swallow) && calls + 1 == k) && !(fault == .mem && calls ≥ k)
+def allowed (fault : Fault) (k : Nat) (calls : Nat) (cancelled : Bool) : WAct → Bool
+  | .driverOk => !((fault == .err || fault == .swallow || fault == .cswallow) && calls + 1 == k) && !(fault == .mem && calls ≥ k)
   | .driverErr => fault == .err && calls + 1 == k
-  | .driverErrSilent => fault == .swallow && calls + 1 == k
+  | .driverErrSilent => (fault == .swallow || (fault == .cswallow && cancelled)) && calls + 1 == k
   | .memErr => fault == .mem && calls ≥ k
   | _ => true
 
@@ -135,12 +138,12 @@ def enabledActs (cfg : Cfg) (s : BF) (fault : Fault) (k : Nat) : List (Act × BF
   let calls := s.sh.expanded.length
   let ws := (List.range s.ws.length).flatMap (fun i =>
     wacts.filterMap (fun a =>
-      if allowed fault k calls a then (s.step cfg (.w i a)).map (fun s' => (Act.w i a, s')) else none))
+      if allowed fault k calls s.sh.cancelled a then (s.step cfg (.w i a)).map (fun s' => (Act.w i a, s')) else none))
   let cs := [Act.cInc, .cSubmitRoot, .cSubmitRootCancel, .cRecv, .cRecvCancel, .cLoad, .cCancel, .cReturn, .pipeExit].filterMap
     (fun a => (s.step cfg a).map (fun s' => (a, s')))
   -- context cancellation injected by the driver at its k-th call: the environment's cancel happens
   -- while a worker holds the k-th segment
-  let env := if fault == .cancel && calls + 1 == k && !s.sh.cancelled && s.ws.any (fun w => match w with | .got _ => true | _ => false)
+  let env := if (fault == .cancel || fault == .cswallow) && calls + 1 == k && !s.sh.cancelled && s.ws.any (fun w => match w with | .got _ => true | _ => false)
     then (s.step cfg .cancel).toList.map (fun s' => (Act.cancel, s')) else []
   if env.isEmpty then ws ++ cs else env
 
@@ -171,7 +174,7 @@ def bstep (st : BSt) (ts : List String) : BSt × String :=
     match st.tree, n.toNat?, parseFault f, k.toNat?, seed.toNat? with
     | some t, some n, some f, some k, some seed =>
       if n == 0 then (st, "bad-op") else
-      let cfg : Cfg := { n := n, root := t, fixed := false }
+      let cfg : Cfg := { n := n, root := t, fixed := true }
       let fuel := 8 * t.nodes.length + 2 * n + 64
       let (s, returned) := simulate cfg f k (2 * fuel) (Rng.new seed) (BF.init cfg)
       let size := t.nodes.length
